@@ -5,7 +5,7 @@ KEYWORDS = ("func", "extern", "interface", "type", "lemma", "requires", "ensures
             "reads", "inline", "invariant", "loop", "assume", "history", "frame", "effectfree", "ghost",
             "lock", "atomic", "axiom", "nopanic", "acquires", "cancellable", "table", "action", "define",
             "fresh", "terminates", "opaque", "nonnil", "callsite", "coverage", "returns", "blocking", "noreturn", "after", "guarantee", "rely", "token",
-            "invokes", "prompt", "promises", "refines", "locked", "rlocked", "establishes")
+            "invokes", "prompt", "promises", "refines", "locked", "rlocked", "establishes", "constructor")
 
 TOK = re.compile(r"""
     (?P<ws>\s+)
